@@ -221,7 +221,8 @@ def run(R, env):
             w = c.with_removed(rem).settle()
             R.worlds += 1
             wr = deep(w)
-            R.ob("C07.R4", name + ":unknown-sequence-no-write", n >= 1 and not wr, "a callback for an unknown sequence can write %s" % [(ns_of(prog, o["args"][0]), o["op"]) for o in wr], fn=ck)
+            # (not vacuous: the world differs from the unconstrained handler even when the lookup is a combinator, not a branch)
+            R.ob("C07.R4", name + ":unknown-sequence-no-write", (n >= 1 or w.T.reach != c.T.reach or len(deep(w)) != len(deep(c))) and not wr, "a callback for an unknown sequence can write %s" % [(ns_of(prog, o["args"][0]), o["op"]) for o in wr], fn=ck)
             loaded_pkt = lambda t: t[0] == "payload" and pk(t[1])
             same_chan = lambda t: (None if differ(t) is None else (not differ(t)))
             worlds = [(True, "success"), (False, "failure")] if is_ack else [(None, "timeout")]
